@@ -12,7 +12,7 @@ macro_rules! rt_eps {
     ($name:ident, $t:ty, $bound:expr, $cap:expr, $unw:expr, $pos0:expr) => {
         #[kani::proof]
         #[kani::unwind($unw)]
-        fn $name() {
+        pub fn $name() {
             let v = <$t as Sym>::sym($bound);
             lemma_rt_eps::<$t, $cap>(&v, $pos0);
             kani::cover!(true, "[cover] end of harness reached");
@@ -23,7 +23,7 @@ macro_rules! rt_eps_group {
     ($name:ident, $unw:expr, $pos0:expr, [$($t:ty),*]) => {
         #[kani::proof]
         #[kani::unwind($unw)]
-        fn $name() {
+        pub fn $name() {
             $( { let v = <$t as Sym>::sym(0); lemma_rt_eps::<$t, 48>(&v, $pos0); } )*
             kani::cover!(true, "[cover] end of harness reached");
         }
